@@ -26,7 +26,8 @@ RULE = ("random reductions: 4 strategies x 2 scitypes (inferred or explicit), se
         "positive integers on a RangeIndex starting at 0/7/100, window_length 1..6, horizon = sorted "
         "subset of 1..6 (contiguous and gapped), 0-2 exogenous columns of distinct integers disjoint "
         "from y, dtype of y / of the exogenous columns in {float64 (5 in 9), int64, int32, float32, bool} "
-        "(bool: values 0/1, kinds run and swt only), fh given at fit / predict / both, 0-5 observations appended by "
+        "(bool: values 0/1, kinds run and swt only), 0-3 exogenous columns labelled in the caller's order "
+        "with plain / unsorted string / descending integer / mixed labels, fh given at fit / predict / both, 0-5 observations appended by "
         "update(update_params=False) before predict (4 in 9 cases); feasibility boundary n = wl + max(fh) - 1 + "
         "{-1,0,1,2,..} oversampled; plus direct calls of _sliding_window_transform and "
         "_infer_scitype/make_reduction dispatch on 4 estimator kinds; plus call histories (kind hist, 240 "
@@ -76,6 +77,10 @@ MODELLED = [
     "_get_last_window are regenerated; the extractor also checks on the symbolic value that the array "
     "handed to every estimator.predict is built from the result of _get_last_window as resolved "
     "through the class hierarchy, in variable-major layout)",
+    "pandas combine_first keeps the column order when both frames list the same labels in the same "
+    "order (the model is positional per variable); with another order it returns the sorted union, "
+    "which update() undoes by re-indexing to the remembered column order (fix bf25489 of finding "
+    "F-C05-1; scenario perm_update keeps exercising it)",
     "the state machine of histories (update / _update_y_X, update_predict_single, update_predict = "
     "_predict_moving_cutoff inside _detached_cutoff, refit through fit(self._y, self._X, self._fh), "
     "_set_fh of the two mixins, _format_moving_cutoff_predictions) is a hand model (coq/C05/Hist.v) "
@@ -156,11 +161,31 @@ def _boolify(rng, case):
     return case
 
 
+def _rand_labels(rng, nx):
+    """labels of the exogenous columns, in the CALLER's order (the order of case["xs"]): plain x0, x1, ..
+    (sorted) in 3 of 10 cases, otherwise strings that are NOT in sorted order, descending integers, or
+    mixed strings / integers"""
+    if nx == 0:
+        return []
+    r = rng.random()
+    if r < 0.3 or nx == 1 and r < 0.6:
+        return ["x%d" % i for i in range(nx)]
+    if r < 0.65:
+        names = rng.sample(["load", "holiday", "temp", "wind", "price", "Zeta", "alpha"], nx)
+        if nx > 1 and names == sorted(names):
+            names = names[::-1]
+        return names
+    if r < 0.85:
+        return sorted(rng.sample(range(0, 12), nx), reverse=True)
+    mixed = rng.sample(["b", 1, "a", 0, "B", 10], nx)
+    return mixed
+
+
 def _run_case(rng, strategy=None):
     st = strategy or rng.choice(STRATS)
     fh = _rand_fh(rng)
     wl = rng.choice([1, 1, 2, 2, 3, 3, 4, 5, 6])
-    nx = rng.choice([0, 0, 1, 2])
+    nx = rng.choice([0, 0, 0, 1, 2, 2, 3])
     if st == "dirrec" and rng.random() < 0.85:
         nx = 0
     fm_fit = 1 if st == "recursive" else fh[-1]
@@ -181,6 +206,7 @@ def _run_case(rng, strategy=None):
          "fh_at": rng.choice(["fit", "both", "predict"]) if st == "recursive"
          else rng.choice(["fit", "both"])}
     c["dtype"] = _rand_dtype(rng)
+    c["xlabels"] = _rand_labels(rng, nx)
     return _boolify(rng, c)
 
 
@@ -196,7 +222,8 @@ def gen_cases(rng, tier):
         n = max(1, wl + fh[-1] - 1 + rng.choice([-1, 0, 0, 1, 1, 2, 3, 5, 8, 12]))
         y, xs = _series(rng, n, nx)
         cases.append(_boolify(rng, {"kind": "swt", "scitype": rng.choice(["tab", "ts"]), "y": y, "xs": xs,
-                                    "wl": wl, "fh": fh, "dtype": _rand_dtype(rng)}))
+                                    "wl": wl, "fh": fh, "dtype": _rand_dtype(rng),
+                                    "xlabels": _rand_labels(rng, nx)}))
     for est in ("tab", "ts", "both", "neither"):
         for st in ("direct", "recursive"):
             cases.append({"kind": "infer", "estimator": est, "strategy": st})
@@ -235,7 +262,7 @@ def _gen_cv(rng, fh, k, wl_f, default=False):
 
 
 SCENARIOS = ["up_predict", "up_twice", "up_up", "ups", "older", "refit", "defaultcv", "mix", "nan",
-             "older_x"]
+             "older_x", "perm_update"]
 
 
 def _hist_case(rng, scenario=None, st=None):
@@ -245,11 +272,11 @@ def _hist_case(rng, scenario=None, st=None):
     fh = _rand_fh(rng, hi=4)
     fm_fit = 1 if st == "recursive" else fh[-1]
     nx = 0
-    if scenario == "older_x":
+    if scenario in ("older_x", "perm_update"):
         if st == "dirrec":
             st = rng.choice(["direct", "recursive", "multioutput"])
             fm_fit = 1 if st == "recursive" else fh[-1]
-        nx = rng.choice([1, 1, 2])
+        nx = rng.choice([1, 2, 2, 3]) if scenario == "older_x" else rng.choice([2, 3])
     n0 = wl + fm_fit - 1 + rng.choice([1, 2, 3, 4, 6])
     LO = 4
     span = n0 + 40
@@ -270,10 +297,12 @@ def _hist_case(rng, scenario=None, st=None):
         src = xr if revised else xv
         return [[c[j + LO] for j in range(s, s + k)] for c in src]
 
-    def add_update(s, k, up=False, revised=False, kind="update", fhp=None):
+    def add_update(s, k, up=False, revised=False, kind="update", fhp=None, xperm=None):
         o = {"op": kind, "t": off + s, "y": vals(s, k, revised), "up": up}
         if kind == "update":
             o["xs"] = xvals(s, k, revised) if nx else None
+            if xperm:
+                o["xperm"] = xperm
         else:
             o["fh"] = fhp
         ops.append(o)
@@ -357,6 +386,14 @@ def _hist_case(rng, scenario=None, st=None):
             b = older_block()
             if b:
                 add_update(b[0], b[1], kind="ups", fhp=pfh())
+    elif scenario == "perm_update":
+        # the caller lists the SAME labelled columns in another order in update (data follow their labels)
+        s, k = new_block(1, 4)
+        perm = list(range(nx))
+        while perm == list(range(nx)):
+            rng.shuffle(perm)
+        add_update(s, k, xperm=perm)
+        add_predict()
     elif scenario in ("older", "older_x"):
         if rng.random() < 0.5:
             s, k = new_block(1, 4)
@@ -404,7 +441,8 @@ def _hist_case(rng, scenario=None, st=None):
                 fresh_updpred(up=rng.random() < 0.2, overlap=rng.random() < 0.4)
     return {"kind": "hist", "scenario": scenario, "strategy": st, "scitype": rng.choice(["tab", "ts"]),
             "explicit": rng.random() < 0.2, "wl": wl, "off": off, "y": vals(0, n0),
-            "xs": xvals(0, n0), "fh": list(fh), "ops": ops, "dtype": _rand_dtype(rng, allow_bool=False)}
+            "xs": xvals(0, n0), "fh": list(fh), "ops": ops, "dtype": _rand_dtype(rng, allow_bool=False),
+            "xlabels": _rand_labels(rng, nx)}
 
 
 
@@ -571,10 +609,21 @@ def _arr(vals, dt="float64"):
     return a
 
 
-def _frame(cols, index, dt="float64"):
+def _labels(case):
+    return case.get("xlabels") or ["x%d" % i for i in range(len(case["xs"]))]
+
+
+def _frame(cols, index, dt="float64", labels=None, order=None):
+    """the exogenous columns as the caller builds the frame: column i labelled labels[i], listed in the
+    given order (default: the order of `cols`)"""
+    import numpy as np
     import pandas as pd
-    return pd.DataFrame({"x%d" % i: pd.Series(_arr(c, dt), index=index) for i, c in enumerate(cols)},
-                        index=index)
+    labels = labels or ["x%d" % i for i in range(len(cols))]
+    order = list(order) if order else list(range(len(cols)))
+    data = np.column_stack([_arr(cols[i], dt) for i in order]) if len(cols[0]) else \
+        np.zeros((0, len(cols)), dtype=dt)
+    return pd.DataFrame(data, index=index, columns=pd.Index([labels[i] for i in order], dtype=object)
+                        if any(isinstance(x, str) for x in labels) else [labels[i] for i in order])
 
 
 def _mk_cv(c, fh_default, wl_default):
@@ -635,8 +684,9 @@ def _run_hist(case):
     def ser(t, vals):
         return pd.Series(_arr(vals, _dt(case, 0)), index=pd.RangeIndex(t, t + len(vals)))
 
-    def frm(t, cols):
-        return _frame(cols, pd.RangeIndex(t, t + len(cols[0])), _dt(case, 1)) if cols else None
+    def frm(t, cols, order=None):
+        return _frame(cols, pd.RangeIndex(t, t + len(cols[0])), _dt(case, 1), _labels(case), order) \
+            if cols else None
 
     est = cls[case["scitype"]]()
     sc = "infer"
@@ -679,7 +729,7 @@ def _run_hist(case):
                 extra = {}
                 try:
                     if o["op"] == "update":
-                        f.update(ser(o["t"], o["y"]), frm(o["t"], o["xs"]) if o["xs"] else None,
+                        f.update(ser(o["t"], o["y"]), frm(o["t"], o["xs"], o.get("xperm")) if o["xs"] else None,
                                  update_params=bool(o["up"]))
                         ret = None
                     elif o["op"] == "predict":
@@ -767,7 +817,7 @@ def run_impl(case):
     if k == "swt":
         idx = pd.RangeIndex(n)
         y = pd.Series(_arr(case["y"], _dt(case, 0)), index=idx)
-        X = _frame(case["xs"], idx, _dt(case, 1)) if case["xs"] else None
+        X = _frame(case["xs"], idx, _dt(case, 1), _labels(case)) if case["xs"] else None
         sc = "tabular-regressor" if case["scitype"] == "tab" else "time-series-regressor"
         try:
             yt, Xt = _swt_function(_reduce)(
@@ -785,7 +835,7 @@ def run_impl(case):
     off = case["off"]
     idx = pd.RangeIndex(off, off + n)
     y = pd.Series(_arr(case["y"], _dt(case, 0)), index=idx)
-    X = _frame(case["xs"], idx, _dt(case, 1)) if case["xs"] else None
+    X = _frame(case["xs"], idx, _dt(case, 1), _labels(case)) if case["xs"] else None
     fh = list(case["fh"])
     est = cls[case["scitype"]]()
     sc = "infer"
@@ -806,12 +856,13 @@ def run_impl(case):
             stage = "update"
             idx2 = pd.RangeIndex(off + n, off + n + k)
             f.update(pd.Series(_arr(news[0], _dt(case, 0)), index=idx2),
-                     _frame(news[1:], idx2, _dt(case, 1)) if case["xs"] else None, update_params=False)
+                     _frame(news[1:], idx2, _dt(case, 1), _labels(case)) if case["xs"] else None,
+                     update_params=False)
         stage = "predict"
         Xf = None
         if case["xfut"]:
             m = len(case["xfut"][0])
-            Xf = _frame(case["xfut"], pd.RangeIndex(off + n + k, off + n + k + m), _dt(case, 1))
+            Xf = _frame(case["xfut"], pd.RangeIndex(off + n + k, off + n + k + m), _dt(case, 1), _labels(case))
         p = f.predict(fh=None if case["fh_at"] == "fit" else fh, X=Xf)
     except Exception as e:
         if type(e).__name__ in ERRS:
@@ -1408,6 +1459,10 @@ def _shrink_hist(c):
         d["xs"] = [x[1:] for x in c["xs"]]
         d["off"] = c["off"] + 1
         yield d
+    if c.get("xlabels") and c["xlabels"] != ["x%d" % i for i in range(len(c["xs"]))]:
+        d = dict(c)
+        d["xlabels"] = ["x%d" % i for i in range(len(c["xs"]))]
+        yield d
     if c.get("off"):
         # relabel the whole history so that the first observation is at 0
         k = c["off"]
@@ -1459,6 +1514,12 @@ def shrink(case):
             d["xfut"] = c["xfut"][:-1]
         if c.get("news"):
             d["news"] = c["news"][:-1]
+        if c.get("xlabels"):
+            d["xlabels"] = c["xlabels"][:-1]
+        yield d
+    if c.get("xlabels") and c["xlabels"] != ["x%d" % i for i in range(len(c["xs"]))]:
+        d = dict(c)
+        d["xlabels"] = ["x%d" % i for i in range(len(c["xs"]))]
         yield d
     if c["wl"] > 1:
         d = dict(c)
@@ -1692,6 +1753,14 @@ def distribution(cases, results):
         o = r.get("out") or {}
         if c["kind"] in ("hist", "run", "swt"):
             d["dtype:y=%s,X=%s" % tuple(c.get("dtype") or ["float64", "float64"])] += 1
+            lb = c.get("xlabels") or []
+            if len(lb) >= 2:
+                try:
+                    srt = lb == sorted(lb)
+                except TypeError:
+                    srt = None
+                d["xlabels(>=2 columns):%s" % ("mixed types" if srt is None else "sorted" if srt
+                                               else "not sorted")] += 1
         if c["kind"] == "hist":
             d["hist:scenario=%s" % c.get("scenario")] += 1
             d["hist:%s:%s" % (c["strategy"], c["scitype"])] += 1
